@@ -27,10 +27,9 @@ def _e1(ctx, thorough):
     pc.negative_control(ctx, 'MC_neg_leak.cfg', 'NoLeak', 'skipped wrapped items / queue leftovers leak before the fix')
     pc.negative_control(ctx, 'MC_neg_hang.cfg', 'Deadlock', 'skipped generator instance never signals completion before the fix')
     if thorough:
-        ctx.check_model(pc.SPEC, 'MCPipeline.tla', 'MC_throw_big.cfg', WHAT, workers=4, vacuity_exempt=VAC, timeout=1500,
+        ctx.check_model(pc.SPEC, 'MCPipeline.tla', 'MC_throw_big.cfg', WHAT, workers=4, vacuity_exempt=pc.SUPP, timeout=1500,
                         label='larger throwing configurations')
-        ctx.check_model(pc.SPEC, 'MCPipeline.tla', 'MC_live_throw.cfg', WHAT + ' (termination under fairness)', workers=4,
-                        vacuity_exempt=VAC + ('PlWuDeq',), timeout=1500, label='liveness: <>Returned with throws')
+        ctx.check_model(pc.SPEC, 'MCPipeline.tla', 'MC_live_throw.cfg', WHAT + ' (termination under fairness)', workers=4, vacuity_exempt=pc.SUPP, timeout=1500, label='liveness: <>Returned with throws')
 
 
 def run(ctx):
